@@ -54,8 +54,21 @@ def _has_decorators_other_than_static(fn):
 
 def _inlinable(fn):
     a = fn.args
-    if a.vararg or a.kwarg or getattr(a, 'posonlyargs', None):
+    if a.kwarg or getattr(a, 'posonlyargs', None):
         return False
+    if a.vararg:
+        # only when the extra arguments are just passed on: f(x, *args)
+        va = a.vararg.arg
+        starred = {id(x.value) for x in ast.walk(fn)
+                   if isinstance(x, ast.Starred)}
+        for n in ast.walk(fn):
+            if isinstance(n, ast.Name) and n.id == va and \
+                    id(n) not in starred:
+                return False
+        for c in ast.walk(fn):
+            if isinstance(c, ast.Starred) and not (
+                    isinstance(c.value, ast.Name) and c.value.id == va):
+                return False
     if _has_decorators_other_than_static(fn):
         return False
     for n in ast.walk(fn):
@@ -100,6 +113,9 @@ class _Inliner(object):
         self.count = 0
         self.tmp = 0
         self.expanded = {}
+        self.calls = None
+        self.cur = None
+        self.cur_names = None
 
     # -- resolution -----------------------------------------------------
     def resolve(self, call, cls):
@@ -122,7 +138,12 @@ class _Inliner(object):
                                         name.endswith('__')):
             return None
         if q in self.known:
-            return None
+            # a call the recorded tree does not have, from a function it has:
+            # a block was replaced by a call of an existing helper
+            if self.calls is None or self.cur is None or \
+                    self.cur not in self.calls or \
+                    name in self.calls[self.cur]:
+                return None
         fn, fcls = self.defs[q]
         if not _inlinable(fn):
             return None
@@ -152,8 +173,14 @@ class _Inliner(object):
         if any(isinstance(a, ast.Starred) for a in call.args) or any(
                 k.arg is None for k in call.keywords):
             return None
+        self.extra = None
         if len(call.args) > len(params):
-            return None
+            if fn.args.vararg is None or fn.args.kwonlyargs:
+                return None
+            self.extra = (fn.args.vararg.arg,
+                          [copy.deepcopy(a) for a in call.args[len(params):]])
+        elif fn.args.vararg is not None:
+            self.extra = (fn.args.vararg.arg, [])
         for p, a in zip(params, call.args):
             vals[p] = a
         for k in call.keywords:
@@ -192,6 +219,20 @@ class _Inliner(object):
             return None
         binds, renames = bound
         body = copy.deepcopy(_strip_doc(fn.body))
+        if self.extra is not None:
+            va, extra = self.extra
+            for st in body:
+                for c in ast.walk(st):
+                    if isinstance(c, ast.Call):
+                        newargs = []
+                        for a in c.args:
+                            if isinstance(a, ast.Starred) and isinstance(
+                                    a.value, ast.Name) and a.value.id == va:
+                                newargs.extend(copy.deepcopy(e)
+                                               for e in extra)
+                            else:
+                                newargs.append(a)
+                        c.args = newargs
         # the helper's own locals become fresh locals of the caller: two
         # expansions of one helper (or a caller local of the same name) must
         # not share them
@@ -214,8 +255,14 @@ class _Inliner(object):
                                          ast.ClassDef, ast.AsyncFunctionDef))
                           for st in body for n in ast.walk(st))
         if not nested_defs:
+            taken = self.cur_names if self.cur_names is not None else None
             for nm in stored:
                 if nm in params_all or nm in declared or nm in renames:
+                    continue
+                if taken is not None and nm not in taken:
+                    # no variable of that name in the caller: the local keeps
+                    # its name (and is the caller's from here on)
+                    taken.add(nm)
                     continue
                 self.tmp += 1
                 renames[nm] = '%s__l%d' % (nm, self.tmp)
@@ -268,6 +315,40 @@ class _Inliner(object):
                     holder = ast.Module(body=body[:-1], type_ignores=[])
                     _RenameNames({rv.id: tname}).visit(holder)
                     new = binds + holder.body
+                elif len(tg) == 1 and isinstance(tg[0], ast.Tuple) and \
+                        isinstance(rv, ast.Tuple) and \
+                        len(tg[0].elts) == len(rv.elts) and all(
+                            isinstance(t_, ast.Name) for t_ in tg[0].elts) \
+                        and all(isinstance(v_, ast.Name) for v_ in rv.elts):
+                    # ``a, b = helper()`` with ``return a_, b_`` inside:
+                    # one assignment per name, result locals that have the
+                    # target's name are the target
+                    pre_ = body[:-1]
+                    tail = []
+                    tnames = [t_.id for t_ in tg[0].elts]
+                    for t_, v_ in zip(tg[0].elts, rv.elts):
+                        others = {n.id for st in binds + pre_
+                                  for n in ast.walk(st)
+                                  if isinstance(n, ast.Name)}
+                        if v_.id in renames.values() and \
+                                v_.id.rpartition('__l')[0] == t_.id and \
+                                t_.id not in others and \
+                                [x.id for x in rv.elts].count(v_.id) == 1:
+                            holder = ast.Module(body=pre_, type_ignores=[])
+                            _RenameNames({v_.id: t_.id}).visit(holder)
+                            pre_ = holder.body
+                        else:
+                            tail.append(ast.Assign(
+                                targets=[copy.deepcopy(t_)],
+                                value=copy.deepcopy(v_)))
+                    new = binds + pre_ + tail
+                elif not exact and isinstance(rv, ast.Name) and (
+                        rv.id in stored or rv.id in renames.values()) and \
+                        rv.id not in params_all:
+                    # a hoisted call whose helper returns one of its locals:
+                    # the statement reads that local, no temporary
+                    _RenameNames({tname: rv.id}).visit(rest[0])
+                    new = binds + body[:-1]
                 else:
                     new = binds + body[:-1] + [ast.Assign(
                         targets=copy.deepcopy(tg), value=rv)]
@@ -495,8 +576,19 @@ class _Inliner(object):
         def walk(body, cls):
             for n in body:
                 if isinstance(n, FUNC):
+                    self.cur = (cls + '.' if cls else '') + n.name
+                    self.cur_names = {x.id for x in ast.walk(n)
+                                      if isinstance(x, ast.Name)} | {
+                        a.arg for x in ast.walk(n)
+                        if isinstance(x, ast.arguments)
+                        for a in x.args + x.kwonlyargs + [
+                            y for y in (x.vararg, x.kwarg) if y]} | {
+                        h.name for h in ast.walk(n)
+                        if isinstance(h, ast.ExceptHandler) and h.name}
                     self.inline_predicates(n, cls)
                     n.body = self.block(n.body, cls)
+                    self.cur = None
+                    self.cur_names = None
                 elif isinstance(n, ast.ClassDef):
                     walk(n.body, (cls + '.' if cls else '') + n.name)
         walk(self.tree.body, None)
@@ -645,9 +737,13 @@ def _renumber(tree, stmt, new):
     return span
 
 
-def inline_new_helpers(tree, known_functions):
+def inline_new_helpers(tree, known_functions, known_calls=None):
     """Inline calls of private helpers that are not in ``known_functions``
-    (set of qualified names).  Returns the number of call sites expanded."""
+    (set of qualified names), and *new* calls of known private helpers from
+    known functions (``known_calls``: caller qualname -> callee names the
+    recorded tree has).  Returns the number of call sites expanded."""
     if known_functions is None:
         return 0
-    return _Inliner(tree, set(known_functions)).run()
+    inl = _Inliner(tree, set(known_functions))
+    inl.calls = known_calls
+    return inl.run()
